@@ -10,8 +10,10 @@ Definition round_trip (fuel : nat) (fs : node) (opts : popts) (src dst : str) : 
   | _ => None
   end.
 
-(* ---- the round trip, for every tree of regular files, directories and links that stay inside ----
-   [stree]: regular files, directories and symbolic links, any depth and width; [wf]: every name a
+(* ---- the round trip, for every tree of regular files, directories, links that stay inside and
+   special files ----
+   [stree]: regular files, directories, symbolic links and special files (fifos, sockets, devices),
+   any depth and width; [wf]: every name a
    single plain path segment, no name twice in a directory; [wfs]: directory listings sorted (the
    order in which filepath.Walk reads them and in which the model's file system lists a directory);
    [links_ok]: every link target is relative, not empty and, read from the directory the link sits
@@ -22,9 +24,10 @@ Definition round_trip (fuel : nat) (fs : node) (opts : popts) (src dst : str) : 
    directory is a real directory below real directories; the destination is an existing empty
    directory given by a clean absolute path; ignore processing is off; any allow list, any cwd,
    any state of the shared flags.  Then Pack succeeds, and unpacking what it wrote puts into the
-   destination exactly the source tree - same names, contents and permissions, the same link
-   targets, every file and directory time rounded to the nearest second ([rounded]) - and nothing
-   else changes. *)
+   destination exactly the source tree without its special files ([rpk] filters them out at every
+   level: "the only omissions") - same names, contents and permissions, the same link targets,
+   every file and directory time rounded to the nearest second ([rounded]) - and nothing else
+   changes. *)
 Theorem C02_round_trip :
   forall fs opts flags cwd fuel pre x pmR mtR ks dst pmD mtD,
     is_dir fs = true -> rdir fs pre -> forallb seg_ok (pre ++ [x]) = true ->
@@ -35,7 +38,7 @@ Theorem C02_round_trip :
     exists es files size,
       pack fuel fs opts flags cwd (join_abs (pre ++ [x])) = (PackOk es files size, flags) /\
       unpack true (o_allow opts) fs dst (map to_entry es)
-      = (put fs (comps_of dst) (Dir pmD (match ks with [] => mtD | _ => None end) (map rp ks)), ROk).
+      = (put fs (comps_of dst) (Dir pmD (match rpk ks with [] => mtD | _ => None end) (rpk ks)), ROk).
 Proof. exact pack_unpack_round_trip. Qed.
 Print Assumptions C02_round_trip.
 
@@ -55,6 +58,7 @@ Definition c02_stree : stree :=
     [ (s2l "a", SFile (s2l "alpha") 256 (Some 1400000000500000000%Z));
       (s2l "e", SFile [] 420 (Some 1400000001499999999%Z));
       (s2l "emptydir", SDir 448 (Some 1500000002600000000%Z) []);
+      (s2l "fifo", SSpecial 1);
       (s2l "l1", SLink (s2l "nowhere"));
       (s2l "l2", SLink (s2l "l1"));
       (s2l "sub", SDir 493 (Some 1500000003000000000%Z)
